@@ -587,6 +587,7 @@ class FakeAsyncioDatagramTransport(_FakeBase, asyncio.DatagramTransport):
         self.wire: list[tuple[bytes, Any]] = []
         self.peer_received: list[tuple[bytes, Any]] = []
         self.send_log: list[dict] = []
+        self._buffer_entries: collections.deque[dict] = collections.deque()  # send_log entries of the buffered datagrams, same order
         self.datagram_error: OSError | None = None  # raised by the next kernel send as a non-fatal OSError
         if call_connection_made:
             loop.call_soon(self._protocol.connection_made, self)
@@ -654,6 +655,7 @@ class FakeAsyncioDatagramTransport(_FakeBase, asyncio.DatagramTransport):
                 self._fatal_error(exc, "Fatal write error on datagram transport")
                 return
         self._buffer.append((bytes(data), addr))
+        self._buffer_entries.append(entry)
         self._buffer_size += len(data)
         self._maybe_pause_protocol()
         entry["paused_after"] = self._protocol_paused
@@ -661,14 +663,21 @@ class FakeAsyncioDatagramTransport(_FakeBase, asyncio.DatagramTransport):
     def _sendto_ready(self) -> None:
         while self._buffer:
             data, addr = self._buffer.popleft()
+            entry = self._buffer_entries.popleft() if self._buffer_entries else None
             self._buffer_size -= len(data)
             try:
                 self._sock_send(data, addr)
             except (BlockingIOError, InterruptedError):
                 self._buffer.appendleft((data, addr))
+                if entry is not None:
+                    self._buffer_entries.appendleft(entry)
                 self._buffer_size += len(data)
                 break
             except OSError as exc:
+                if entry is not None:
+                    # the datagram is gone (asyncio reports it through error_received() and goes on)
+                    entry["dropped"] = True
+                    entry["error"] = exc
                 self._protocol.error_received(exc)
                 return
             except BaseException as exc:  # noqa: BLE001
